@@ -195,6 +195,7 @@ def jbody : Body → Json
   | .value v => Json.mkObj [("value", jval v)]
   | .status n => Json.mkObj [("status", Json.num n)]
   | .image => Json.str "image"
+  | .multi l => Json.mkObj [("chars", Json.arr (l.map fun (x, st) => Json.arr #[Json.num x, Json.str "absent", Json.num st]).toArray)]
 
 def outObj : Out → ObjId
   | .event p _ _ => p
@@ -228,7 +229,7 @@ def natList (j : Json) (k : String) : R (List Nat) := do
   | .ok (.arr a) => a.toList.mapM asNat
   | _ => pure []
 
-/-- `["cb", x, "echo"] | ["cb", x, "set_to", v2] | ["cb", x, "set_other", y, w]` -/
+/-- `["cb", x, "echo"] | ["cb", x, "set_to", v2] | ["cb", x, "set_other", y, w] | ["cb", x, "raise"]` -/
 def cbOf (ops : Array Json) : R (List (Cid × Callback)) := do
   let mut res : List (Cid × Callback) := []
   for op in ops do
@@ -242,6 +243,7 @@ def cbOf (ops : Array Json) : R (List (Cid × Callback)) := do
           | _ => throw "cb: kind expected"
         let cb ← match kind with
           | "echo" => pure Callback.echo
+          | "raise" => pure Callback.raise
           | "set_to" => do pure (Callback.setTo (← asNat (a[3]?.getD Json.null)))
           | "set_other" => do pure (Callback.setOther (← asNat (a[3]?.getD Json.null)) (← asNat (a[4]?.getD Json.null)))
           | _ => throw s!"cb: unknown kind {kind}"
@@ -256,10 +258,12 @@ def handle (j : Json) : R Json := do
   let fix12 := (j.getObjValAs? Bool "fix12").toOption.getD true
   let fix13 := (j.getObjValAs? Bool "fix13").toOption.getD true
   let fixResub := (j.getObjValAs? Bool "fixResub").toOption.getD true
+  let fixRaise := (j.getObjValAs? Bool "fixRaise").toOption.getD true
+  let fixHand := (j.getObjValAs? Bool "fixHand").toOption.getD true
   let ops ← getArr j "ops"
   let cbs ← cbOf ops
   let c : Cfg := { imm := fun x => imm.contains x, nul := fun x => nul.contains x, fix12 := fix12, fix13 := fix13,
-                   fixResub := fixResub,
+                   fixResub := fixResub, fixRaise := fixRaise, fixHand := fixHand,
                    cb := fun x => match cbs.reverse.find? (fun e => e.1 = x) with
                                   | some e => e.2
                                   | none => Callback.none }
